@@ -286,6 +286,108 @@ fn reparse(kind: &str, input: &[TokenTree], out: &[TokenTree]) -> String {
     }
 }
 
+// ---- span consistency of forwarded identifiers (hygiene, as far as E1 can see it) -------------------------
+// In the model a delegating body forwards *the method's own parameter identifiers*.  For rustc "the same
+// identifier" includes its span: a forwarded identifier that carries another span than the parameter
+// declaration may resolve to another binding, or to none, once macro_rules hygiene is involved (defect repaired
+// by b984973; seed R15C01).  proc-macro2's fallback spans carry only locations, so what E1 can observe is: every
+// identifier in a generated method body that is spelled like a parameter of that method (or `self`) carries the
+// location of that parameter's declaration.  Mismatches are written to `<out>.spans` (one line per case).
+static SPAN_NOTES: std::sync::Mutex<Vec<String>> = std::sync::Mutex::new(Vec::new());
+
+fn body_idents(ts: TS, out: &mut Vec<proc_macro2::Ident>) {
+    for t in ts {
+        match t {
+            TokenTree::Group(g) => body_idents(g.stream(), out),
+            TokenTree::Ident(i) => out.push(i),
+            _ => {}
+        }
+    }
+}
+
+fn span_mismatches_in(region: TS, notes: &mut Vec<String>) {
+    use quote::ToTokens;
+    let file = match syn::parse2::<syn::File>(region) {
+        Ok(f) => f,
+        Err(_) => return,
+    };
+    for item in file.items {
+        let imp = match item {
+            syn::Item::Impl(i) if i.trait_.is_some() => i,
+            _ => continue,
+        };
+        for m in imp.items {
+            let f = match m {
+                syn::ImplItem::Fn(f) => f,
+                _ => continue,
+            };
+            let mut decls: Vec<(String, proc_macro2::LineColumn)> = vec![];
+            for a in f.sig.inputs.iter() {
+                match a {
+                    syn::FnArg::Receiver(r) => decls.push(("self".to_string(), r.self_token.span.start())),
+                    syn::FnArg::Typed(t) => {
+                        if let syn::Pat::Ident(pi) = &*t.pat {
+                            decls.push((pi.ident.to_string(), pi.ident.span().start()));
+                        }
+                    }
+                }
+            }
+            let mut used = vec![];
+            body_idents(f.block.to_token_stream(), &mut used);
+            for u in used {
+                let name = u.to_string();
+                // (an invalid input may declare one name twice: any of the declarations will do)
+                if let Some((_, at)) = decls.iter().find(|(n, _)| *n == name) {
+                    let here = u.span().start();
+                    if !decls.iter().any(|(n, a)| *n == name && *a == here) {
+                        notes.push(format!(
+                            "{}:{} declared@{}:{} forwarded@{}:{}",
+                            f.sig.ident, name, at.line, at.column, here.line, here.column
+                        ));
+                    }
+                }
+            }
+        }
+    }
+}
+
+/// the generated regions of an expansion (everything but the user's original tokens), by input kind
+fn span_mismatches(kind: &str, input: &[TokenTree], out: &[TokenTree]) -> Vec<String> {
+    let mut notes = vec![];
+    match kind {
+        "fn" => {
+            if starts_with(out, input) {
+                span_mismatches_in(collect(&out[input.len()..]), &mut notes);
+            }
+        }
+        "mod" => {
+            let k = (2..input.len()).find(|&k| {
+                brace_group(&input[k]).is_some() && matches!(input[k - 1], TokenTree::Ident(_)) && is_ident(&input[k - 2], "mod")
+            });
+            if let Some(k) = k {
+                if out.len() > k && starts_with(out, &input[..k]) {
+                    let in_body = trees(brace_group(&input[k]).unwrap());
+                    if let Some(b) = brace_group(&out[k]) {
+                        let out_body = trees(b);
+                        if starts_with(&out_body, &in_body) {
+                            span_mismatches_in(collect(&out_body[in_body.len()..]), &mut notes);
+                        }
+                    }
+                    span_mismatches_in(collect(&out[k + 1..]), &mut notes);
+                }
+            }
+        }
+        "trait" => span_mismatches_in(collect(out), &mut notes),
+        "impl" => {
+            if let Some(j) = out.iter().position(|t| brace_group(t).is_some()) {
+                span_mismatches_in(collect(&out[j + 1..]), &mut notes);
+            }
+        }
+        _ => {}
+    }
+    notes
+}
+
 fn run_real(variant: &str, attr: TS, item: TS) -> Result<TS, String> {
     let f: fn(TS, TS) -> TS = match variant {
         "plain" => entrait,
@@ -444,10 +546,16 @@ fn process_one(line: &str) -> String {
                         wire::list(msgs.iter().map(|m| wire::text(&m.1))),
                     ],
                 ),
-                None => wire::node(
-                    "ok",
-                    &[wire::toks(out), reparse(&kind, &input_trees, &out_trees)],
-                ),
+                None => {
+                    let notes = span_mismatches(&kind, &input_trees, &out_trees);
+                    if !notes.is_empty() {
+                        SPAN_NOTES.lock().unwrap().push(format!("{}\t{}", id, notes.join("; ")));
+                    }
+                    wire::node(
+                        "ok",
+                        &[wire::toks(out), reparse(&kind, &input_trees, &out_trees)],
+                    )
+                }
             }
         }
     };
@@ -657,5 +765,9 @@ fn main() {
         for l in h.join().expect("worker") {
             writeln!(w, "{}", l).unwrap();
         }
+    }
+    let mut sp = std::io::BufWriter::new(std::fs::File::create(format!("{}.spans", &args[2])).expect("create spans"));
+    for l in SPAN_NOTES.lock().unwrap().iter() {
+        writeln!(sp, "{}", l).unwrap();
     }
 }
